@@ -5,7 +5,7 @@ cd "$(dirname "$0")/.." || exit 2
 git merge --no-commit --no-ff "$b" >/tmp/merge.$$.log 2>&1
 # generated files: never merged by content
 git rm -q --cached lean/CTV/Driver/Main.lean 2>/dev/null
-git rm -rq --cached lean/CTV/Audit 2>/dev/null
+git rm -rq --cached lean/CTV/Audit 2>/dev/null; rm -rf lean/CTV/Audit
 for f in $(git diff --name-only --diff-filter=U); do
   case "$f" in
     MANIFEST.json|known_findings.json) git checkout --ours -- "$f" 2>/dev/null; git add "$f" ;;
